@@ -126,7 +126,12 @@ def convLine (t : NumT) (given : Rat) (rowLen : Nat) (xs : List Rat) : String :=
     let flat := out.flatten
     let cells := (flat.zip xs).map fun (c, x) =>
       match c, t with
-      | .int v, .int sg _ => if s = 0 then "0" else fmtStoredInt sg s x v
+      | .int v, .int sg _ =>
+        if s = 0 then "0"
+        -- a subnormal binary32 scale factor (|s| < 2⁻¹²⁶): the implementation's quotient is not the model's (precision of
+        -- the scale factor; reciprocal overflow in builds with -ffast-math) — known finding, anything is accepted
+        else if absR s < 1 / (2 : Rat) ^ 126 && !(!sg && decide (x < 0)) then "ub"
+        else fmtStoredInt sg s x v
       | .int _, _ => "?"
       | .real v, _ => fmtRat v
     s!"{fmtRat s} | " ++ " ".intercalate cells
